@@ -2,8 +2,11 @@
    PeerCodec::decode_nlri_list / decode_nlri, Nlri::decode (packet/src/bgp.rs),
    Ipv4Net/Ipv6Net::decode, labeled.rs, vpn.rs, mpls.rs, rd.rs (decode only).
 
-   Families whose decoders are not modelled (MUP, flowspec, flowspec-VPN, LS,
-   SR policy, EVPN, RTC) go through the Section variable [other_nlri]; the
+   EVPN (evpn.rs, route types 1-5), RTC (rtc.rs), SR policy (sr_policy.rs) and the four
+   flowspec families (flowspec.rs) and MUP (mup.rs, route types 1-4) are modelled below.  Families whose decoders are not
+   modelled would go through the Section variable [other_nlri] (none is left: BGP-LS, ls.rs, is
+   modelled below too; the variable and its contract are kept so that a family added to the
+   crate without a model has a place); the
    contract assumed of it is stated in Proofs/WireNlri.v (consumes at least one
    byte or fails, never panics) and it is exercised by the harness only.
 
@@ -22,15 +25,32 @@ Definition F_IPV4_VPN := 65664.  Definition F_IPV6_VPN := 131200.
 Definition F_IPV4_MUP := 65621.  Definition F_IPV6_MUP := 131157.
 Definition F_IPV4_FS := 65669.   Definition F_IPV6_FS := 131205.
 Definition F_IPV4_FSVPN := 65670. Definition F_IPV6_FSVPN := 131206.
-Definition F_LS := 1073807431.
+Definition F_LS := 1074004039.
 Definition F_IPV4_SRP := 65609.  Definition F_IPV6_SRP := 131145.
 Definition F_EVPN := 1638470.    Definition F_RTC := 65668.
 
 Definition is_other_family (f : N) : bool :=
-  existsb (N.eqb f) [F_IPV4_MUP; F_IPV6_MUP; F_IPV4_FS; F_IPV6_FS; F_IPV4_FSVPN; F_IPV6_FSVPN;
-                     F_LS; F_IPV4_SRP; F_IPV6_SRP; F_EVPN; F_RTC].
+  false && (f =? F_LS).   (* every family the crate can negotiate is modelled *)
 Definition is_flowspec (f : N) : bool :=
   existsb (N.eqb f) [F_IPV4_FS; F_IPV6_FS; F_IPV4_FSVPN; F_IPV6_FSVPN].
+
+(* a flowspec component: an address prefix (types 1, 2) or a list of (operator bits, value) *)
+Inductive fcomp :=
+| FPrefix (ty bits off : N) (addr : list N)
+| FOps (ty : N) (ops : list (N * N)).
+
+(* BGP-LS (ls.rs): node descriptor, link / prefix descriptor TLVs, the NLRI variants *)
+Record lsnd := { nd_asn : option N; nd_lsid : option N; nd_area : option N;
+                 nd_igp : option (list N); nd_bgp : option (list N); nd_confed : option N }.
+Inductive lstlv :=
+| LsLinkId (l r : N) | LsAddr (kind : N) (a : list N) | LsMt (ids : list N)
+| LsOspf (t : N) | LsReach (plen : N) (a : list N) | LsUnk (t : N) (v : list N).
+Inductive lsnlri :=
+| LsUnknown (t : N) (body : list N)
+| LsNode (p id : N) (n : lsnd)
+| LsLink (p id : N) (l r : lsnd) (tl : list lstlv)
+| LsPrefix (v6 : bool) (p id : N) (n : lsnd) (tl : list lstlv)
+| LsSrv6 (p id : N) (n : lsnd) (sids : list (list N)) (mts : list N).
 
 Inductive nlri :=
 | NV4 (mask : N) (addr : list N)
@@ -39,6 +59,12 @@ Inductive nlri :=
 | NLab6 (labels : list N) (mask : N) (addr : list N)
 | NVpn4 (labels rd : list N) (mask : N) (addr : list N)
 | NVpn6 (labels rd : list N) (mask : N) (addr : list N)
+| NEvpn (enc : list N)                 (* EvpnNlri::encode of the decoded route: type, length, data *)
+| NRtc (enc : list N)                  (* RtcNlri::encode *)
+| NSrp (enc : list N)                  (* SrPolicyNlri::encode *)
+| NMup (enc : list N)                  (* MupNlri::encode: architecture, route type, length, serialized body *)
+| NLs (x : lsnlri)
+| NFlow (kind : N) (rd : list N) (comps : list fcomp)   (* kind 0 v4, 1 v6, 2 vpn-v4, 3 vpn-v6; rd = [] unless vpn *)
 | NOther.
 
 Definition MAL := E_MALFORMED_ATTR_LIST.
@@ -109,6 +135,369 @@ Definition vpn_decode (maxbits : N) (abytes : nat) (c : list N) (n : N)
   | _ => Panic 2                                         (* &data[0..2] *)
   end.
 
+
+(* ---- EVPN (evpn.rs EvpnNlri::decode and the five route decoders).  Every failure is the same
+   io::Error, mapped to UpdateMalformedAttributeList, so the order of the reads inside one route
+   does not show; [data] is what the route decoder consumed, which is also what encode() writes. *)
+Definition rd_ok (rd : list N) : bool :=
+  match rd with t1 :: t2 :: _ => be16 t1 t2 <=? 2 | _ => false end.
+
+(* ip_len octet of route types 2-4: number of address octets, or None when malformed *)
+Definition evpn_ip_octets (allow_zero : bool) (ip_len : N) : option nat :=
+  if ip_len =? 32 then Some 4%nat else if ip_len =? 128 then Some 16%nat
+  else if allow_zero && (ip_len =? 0) then Some 0%nat else None.
+
+Definition evpn_route (rt rl : N) (c : list N) : res (list N * list N) :=
+  match rt with
+  | 1 => (* RD 8, ESI 10, ETag 4, label 3 *)
+    if negb (rl =? 25) then Fail MAL else
+    '(d, c) <- rm (take 25 c) ;;
+    if rd_ok d then Ok (d, c) else Fail MAL
+  | 2 => (* RD 8, ESI 10, ETag 4, MAC length 1 (= 48), MAC 6, IP length 1, IP 0/4/16, label1 3, [label2 3] *)
+    if rl <? 33 then Fail MAL else
+    '(h, c) <- rm (take 22 c) ;;
+    if negb (rd_ok h) then Fail MAL else
+    '(ml, c) <- rm (get8 c) ;;
+    if negb (ml =? 48) then Fail MAL else
+    '(mac, c) <- rm (take 6 c) ;;
+    '(il, c) <- rm (get8 c) ;;
+    match evpn_ip_octets true il with
+    | None => Fail MAL
+    | Some ipb =>
+      '(ip, c) <- rm (take ipb c) ;;
+      '(l1, c) <- rm (take 3 c) ;;
+      let d := h ++ [ml] ++ mac ++ [il] ++ ip ++ l1 in
+      if rl =? 33 + N.of_nat ipb + 3 then
+        '(l2, c) <- rm (take 3 c) ;; Ok (d ++ l2, c)
+      else Ok (d, c)
+    end
+  | 3 => (* RD 8, ETag 4, IP length 1, IP 4/16 *)
+    if rl <? 17 then Fail MAL else
+    '(h, c) <- rm (take 12 c) ;;
+    if negb (rd_ok h) then Fail MAL else
+    '(il, c) <- rm (get8 c) ;;
+    match evpn_ip_octets false il with
+    | None => Fail MAL
+    | Some ipb => '(ip, c) <- rm (take ipb c) ;; Ok (h ++ [il] ++ ip, c)
+    end
+  | 4 => (* RD 8, ESI 10, IP length 1, IP 4/16 *)
+    if rl <? 23 then Fail MAL else
+    '(h, c) <- rm (take 18 c) ;;
+    if negb (rd_ok h) then Fail MAL else
+    '(il, c) <- rm (get8 c) ;;
+    match evpn_ip_octets false il with
+    | None => Fail MAL
+    | Some ipb => '(ip, c) <- rm (take ipb c) ;; Ok (h ++ [il] ++ ip, c)
+    end
+  | 5 => (* RD 8, ESI 10, ETag 4, prefix length 1, prefix 4/16, gateway 4/16, label 3 *)
+    if (rl =? 34) || (rl =? 58) then
+      '(d, c) <- rm (take (nat_of rl) c) ;;
+      (* prefix length octet (offset 22): at most 32 for the IPv4 form, 128 for the IPv6 form (e0eebac) *)
+      match nth_error d 22 with
+      | None => Panic 8
+      | Some pl =>
+        if rd_ok d && (pl <=? (if rl =? 34 then 32 else 128)) then Ok (d, c) else Fail MAL
+      end
+    else Fail MAL
+  | _ => Fail MAL
+  end.
+
+Definition evpn_decode (c : list N) : res (list N * list N) :=
+  '(rt, c) <- rm (get8 c) ;;
+  '(rl, c) <- rm (get8 c) ;;
+  '(d, c) <- evpn_route rt rl c ;;
+  Ok (rt :: len d :: d, c).
+
+(* ---- RTC (rtc.rs RtcNlri::decode): prefix length 0, 32 (origin AS) or 96 (origin AS + route target) *)
+Definition rtc_decode (c : list N) : res (list N * list N) :=
+  '(bits, c) <- rm (get8 c) ;;
+  if bits =? 0 then Ok ([0], c)
+  else if bits =? 32 then '(d, c) <- rm (take 4 c) ;; Ok (32 :: d, c)
+  else if bits =? 96 then '(d, c) <- rm (take 12 c) ;; Ok (96 :: d, c)
+  else Fail MAL.
+
+(* ---- SR policy (sr_policy.rs SrPolicyNlri::decode): length 96 / 192, distinguisher, color, endpoint *)
+Definition srp_decode (c : list N) : res (list N * list N) :=
+  '(bits, c) <- rm (get8 c) ;;
+  '(dc, c) <- rm (take 8 c) ;;
+  if bits =? 96 then '(e, c) <- rm (take 4 c) ;; Ok (96 :: dc ++ e, c)
+  else if bits =? 192 then '(e, c) <- rm (take 16 c) ;; Ok (192 :: dc ++ e, c)
+  else Fail MAL.
+
+
+
+Fixpoint be_val (l : list N) (acc : N) : N :=
+  match l with [] => acc | b :: r => be_val r (acc * 256 + b) end.
+
+(* ---- BGP-LS (ls.rs).  read_tlv: type, length, value; None when the header or the value is short *)
+Definition ls_read_tlv (c : list N) : option (N * list N * list N) :=
+  match c with
+  | t1 :: t2 :: l1 :: l2 :: r =>
+    let n := nat_of (be16 l1 l2) in
+    if Nat.ltb (length r) n then None else Some (be16 t1 t2, firstn n r, skipn n r)
+  | _ => None
+  end.
+
+(* `while pos < len { let Some(tlv) = read_tlv(..) else { break }; .. }`: the TLVs up to the first that does not fit *)
+Fixpoint ls_tlvs (fuel : nat) (c : list N) : list (N * list N) :=
+  match fuel with
+  | O => []
+  | S f =>
+    match c with
+    | [] => []
+    | _ => match ls_read_tlv c with
+           | None => []
+           | Some (t, v, c') => (t, v) :: ls_tlvs f c'
+           end
+    end
+  end.
+
+(* value[..n].try_into().unwrap() *)
+Definition ls_first (tag : N) (n : nat) (v : list N) : res (list N) :=
+  if Nat.ltb (length v) n then Panic tag else Ok (firstn n v).
+
+Definition be_of (l : list N) : N := be_val l 0.
+
+Definition nd0 : lsnd := {| nd_asn := None; nd_lsid := None; nd_area := None; nd_igp := None; nd_bgp := None; nd_confed := None |}.
+
+(* NodeDescriptor::decode: the last TLV of a kind wins; TLVs too short for their kind are ignored *)
+Fixpoint ls_node_fold (tl : list (N * list N)) (nd : lsnd) : res lsnd :=
+  match tl with
+  | [] => Ok nd
+  | (t, v) :: r =>
+    let long := negb (Nat.ltb (length v) 4) in
+    if (t =? 512) && long then
+      x <- ls_first 60 4 v ;; ls_node_fold r {| nd_asn := Some (be_of x); nd_lsid := nd_lsid nd; nd_area := nd_area nd; nd_igp := nd_igp nd; nd_bgp := nd_bgp nd; nd_confed := nd_confed nd |}
+    else if (t =? 513) && long then
+      x <- ls_first 60 4 v ;; ls_node_fold r {| nd_asn := nd_asn nd; nd_lsid := Some (be_of x); nd_area := nd_area nd; nd_igp := nd_igp nd; nd_bgp := nd_bgp nd; nd_confed := nd_confed nd |}
+    else if (t =? 514) && long then
+      x <- ls_first 60 4 v ;; ls_node_fold r {| nd_asn := nd_asn nd; nd_lsid := nd_lsid nd; nd_area := Some (be_of x); nd_igp := nd_igp nd; nd_bgp := nd_bgp nd; nd_confed := nd_confed nd |}
+    else if t =? 515 then
+      ls_node_fold r {| nd_asn := nd_asn nd; nd_lsid := nd_lsid nd; nd_area := nd_area nd; nd_igp := Some v; nd_bgp := nd_bgp nd; nd_confed := nd_confed nd |}
+    else if (t =? 516) && long then
+      x <- ls_first 60 4 v ;; ls_node_fold r {| nd_asn := nd_asn nd; nd_lsid := nd_lsid nd; nd_area := nd_area nd; nd_igp := nd_igp nd; nd_bgp := Some x; nd_confed := nd_confed nd |}
+    else if (t =? 517) && long then
+      x <- ls_first 60 4 v ;; ls_node_fold r {| nd_asn := nd_asn nd; nd_lsid := nd_lsid nd; nd_area := nd_area nd; nd_igp := nd_igp nd; nd_bgp := nd_bgp nd; nd_confed := Some (be_of x) |}
+    else ls_node_fold r nd
+  end.
+
+Definition ls_node (v : list N) : res lsnd := ls_node_fold (ls_tlvs (S (length v)) v) nd0.
+
+(* chunks_exact(2) as 16-bit values *)
+Fixpoint ls_u16s (mask : N) (v : list N) : list N :=
+  match v with
+  | a :: b :: r => N.land (be16 a b) mask :: ls_u16s mask r
+  | _ => []
+  end.
+
+(* decode_link_desc_tlvs *)
+Fixpoint ls_link_tlvs (tl : list (N * list N)) : res (list lstlv) :=
+  match tl with
+  | [] => Ok []
+  | (t, v) :: r =>
+    x <- (if (t =? 258) && negb (Nat.ltb (length v) 8) then
+            a <- ls_first 61 4 v ;; b <- ls_first 61 4 (skipn 4 v) ;; Ok (LsLinkId (be_of a) (be_of b))
+          else if ((t =? 259) || (t =? 260)) && negb (Nat.ltb (length v) 4) then
+            a <- ls_first 62 4 v ;; Ok (LsAddr t a)
+          else if ((t =? 261) || (t =? 262)) && negb (Nat.ltb (length v) 16) then
+            a <- ls_first 63 16 v ;; Ok (LsAddr t a)
+          else if t =? 263 then Ok (LsMt (ls_u16s 4095 v))
+          else Ok (LsUnk t v)) ;;
+    l <- ls_link_tlvs r ;; Ok (x :: l)
+  end.
+
+(* decode_prefix_desc_tlvs *)
+Fixpoint ls_prefix_tlvs (tl : list (N * list N)) : res (list lstlv) :=
+  match tl with
+  | [] => Ok []
+  | (t, v) :: r =>
+    x <- (if t =? 263 then Ok (LsMt (ls_u16s 4095 v))
+          else match v with
+               | v0 :: vr =>
+                 if t =? 264 then Ok (LsOspf v0)
+                 else if t =? 265 then
+                   let bl := nat_of (ceil8 v0) in
+                   if Nat.ltb bl (length v) then
+                     (* value[1..1 + byte_len] *)
+                     if Nat.ltb (length vr) bl then Panic 64 else Ok (LsReach v0 (firstn bl vr))
+                   else Ok (LsReach v0 vr)               (* value[1..] *)
+                 else Ok (LsUnk t v)
+               | [] => Ok (LsUnk t v)
+               end) ;;
+    l <- ls_prefix_tlvs r ;; Ok (x :: l)
+  end.
+
+(* the SRv6 SID NLRI's TLVs: (sids, multi-topology ids) *)
+Fixpoint ls_srv6_tlvs (tl : list (N * list N)) (sids : list (list N)) (mts : list N) : res (list (list N) * list N) :=
+  match tl with
+  | [] => Ok (sids, mts)
+  | (t, v) :: r =>
+    if (t =? 518) && negb (Nat.ltb (length v) 20) then
+      m <- ls_first 65 2 v ;; sid <- ls_first 65 16 (skipn 4 v) ;;
+      ls_srv6_tlvs r (sids ++ [sid]) (mts ++ [be_of m])
+    else if t =? 263 then ls_srv6_tlvs r sids (mts ++ ls_u16s 65535 v)
+    else ls_srv6_tlvs r sids mts
+  end.
+
+(* decode_node_desc_and_rest / decode_node_desc_container: the first TLV must be a node descriptor container *)
+Definition ls_node_and_rest (d : list N) : res (lsnd * list N) :=
+  match ls_read_tlv d with
+  | None => Fail MAL
+  | Some (t, v, rest) =>
+    if negb ((t =? 256) || (t =? 257)) then Fail MAL else
+    nd <- ls_node v ;; Ok (nd, rest)
+  end.
+
+(* BgpLsNlri::decode *)
+Definition ls_decode (c : list N) : res (lsnlri * list N) :=
+  '(ty, c) <- rm (get16 c) ;;
+  '(ln, c) <- rm (get16 c) ;;
+  '(body, c) <- rm (take (nat_of ln) c) ;;
+  if Nat.ltb (length body) 9 then Ok (LsUnknown ty body, c) else
+  match body with
+  | p :: b =>
+    idb <- ls_first 66 8 b ;;                              (* body[1..9] *)
+    let id := be_of idb in
+    let rest := skipn 8 b in
+    if ty =? 1 then
+      '(nd, _) <- ls_node_and_rest rest ;; Ok (LsNode p id nd, c)
+    else if ty =? 2 then
+      '(l, r1) <- ls_node_and_rest rest ;;
+      '(r, r2) <- ls_node_and_rest r1 ;;
+      tl <- ls_link_tlvs (ls_tlvs (S (length r2)) r2) ;;
+      Ok (LsLink p id l r tl, c)
+    else if (ty =? 3) || (ty =? 4) then
+      '(nd, r1) <- ls_node_and_rest rest ;;
+      tl <- ls_prefix_tlvs (ls_tlvs (S (length r1)) r1) ;;
+      Ok (LsPrefix (ty =? 4) p id nd tl, c)
+    else if ty =? 6 then
+      '(nd, r1) <- ls_node_and_rest rest ;;
+      '(sids, mts) <- ls_srv6_tlvs (ls_tlvs (S (length r1)) r1) [] [] ;;
+      Ok (LsSrv6 p id nd sids mts, c)
+    else Ok (LsUnknown ty body, c)
+  | [] => Panic 67                                          (* body[0] *)
+  end.
+
+(* ---- MUP (mup.rs MupNlri::decode and the four route body decoders).  The body decoders work on
+   a slice with explicit length tests before every index, all failing with the same error; the
+   model returns the route's serialize() output (octets after the ones a route uses are dropped). *)
+Definition sub_list (start n : nat) (l : list N) : list N := firstn n (skipn start l).
+
+Definition mup_body (ip_bits : N) (rt : N) (d : list N) : option (list N) :=
+  let ipb := nat_of (ip_bits / 8) in
+  let n := length d in
+  let rd := firstn 8 d in
+  match rt with
+  | 1 => (* Interwork Segment Discovery: RD, prefix length, prefix *)
+    if Nat.ltb n 9 || negb (rd_ok rd) then None else
+    let plen := nth 8 d 0 in
+    let pb := nat_of (ceil8 plen) in
+    if Nat.ltb (n - 9) pb || (ip_bits <? plen) then None else
+    Some (rd ++ [plen] ++ sub_list 9 pb d)
+  | 2 => (* Direct Segment Discovery: RD, address *)
+    if Nat.ltb n 8 || negb (rd_ok rd) || negb (Nat.eqb (n - 8) ipb) then None else Some d
+  | 3 => (* Type 1 Session Transformed: RD, prefix length, prefix, TEID 4, QFI 1, endpoint length, endpoint, source length, [source] *)
+    if Nat.ltb n 9 || negb (rd_ok rd) then None else
+    let plen := nth 8 d 0 in
+    let pb := nat_of (ceil8 plen) in
+    let after := (9 + pb)%nat in
+    if Nat.ltb n (after + 6) || (ip_bits <? plen) then None else
+    let ea_len := nth (after + 5) d 0 in
+    if negb (ea_len =? ip_bits) || Nat.ltb n (after + 6 + ipb + 1) then None else
+    let sa_len := nth (after + 6 + ipb) d 0 in
+    let head := rd ++ [plen] ++ sub_list 9 pb d ++ sub_list after 5 d ++ [ip_bits] ++ sub_list (after + 6) ipb d in
+    if sa_len =? 0 then Some (head ++ [0]) else
+    if negb (sa_len =? ip_bits) || Nat.ltb n (after + 6 + ipb + 1 + ipb) then None
+    else Some (head ++ [ip_bits] ++ sub_list (after + 6 + ipb + 1) ipb d)
+  | 4 => (* Type 2 Session Transformed: RD, endpoint length (address + TEID bits), address, TEID octets *)
+    if Nat.ltb n 9 || negb (rd_ok rd) then None else
+    let ea_len := nth 8 d 0 in
+    if (ea_len <? ip_bits) || (ip_bits + 32 <? ea_len) || Nat.ltb n (9 + ipb) then None else
+    let tb := nat_of (ceil8 (ea_len - ip_bits)) in
+    if Nat.ltb n (9 + ipb + tb) then None
+    else Some (rd ++ [ea_len] ++ sub_list 9 ipb d ++ sub_list (9 + ipb) tb d)
+  | _ => None
+  end.
+
+Definition mup_decode (fam : N) (c : list N) (n : N) : res (list N * list N) :=
+  if n <? 4 then Fail MAL else
+  '(h, c) <- rm (take 4 c) ;;
+  match h with
+  | [arch; t1; t2; blen] =>
+    if negb (arch =? 1) || (n <? 4 + blen) then Fail MAL else
+    '(body, c) <- rm (take (nat_of blen) c) ;;
+    match mup_body (if fam / 65536 =? 1 then 32 else 128) (be16 t1 t2) body with
+    | Some ser => Ok (arch :: t1 :: t2 :: (len ser) mod 256 :: ser, c)
+    | None => Fail MAL
+    end
+  | _ => Panic 9                                           (* header[0..4] *)
+  end.
+
+(* ---- flowspec (flowspec.rs).  Op::decode: length bits 5-4 give 1/2/4/8 value octets *)
+
+Definition fs_op (c : list N) : res (N * N * list N) :=
+  '(raw, c) <- rm (get8 c) ;;
+  let order := (raw / 16) mod 4 in
+  let n := if order =? 0 then 1%nat else if order =? 1 then 2%nat else if order =? 2 then 4%nat else 8%nat in
+  '(v, c) <- rm (take n c) ;;
+  Ok (N.land raw 207, be_val v 0, c).
+
+(* decode_ops: until the end-of-list bit *)
+Fixpoint fs_ops (fuel : nat) (c : list N) (acc : list (N * N)) : res (list (N * N) * list N) :=
+  match fuel with
+  | O => Panic FUEL
+  | S f =>
+    '(bits, v, c) <- fs_op c ;;
+    if N.testbit bits 7 then Ok (rev ((bits, v) :: acc), c) else fs_ops f c ((bits, v) :: acc)
+  end.
+
+(* FlowspecV4Component::decode / FlowspecV6Component::decode on the NLRI's own buffer *)
+Definition fs_component (v6 : bool) (c : list N) : res (fcomp * list N) :=
+  '(ty, c) <- rm (get8 c) ;;
+  if (ty =? 1) || (ty =? 2) then
+    '(bits, c) <- rm (get8 c) ;;
+    if (if v6 then 128 else 32) <? bits then Fail MAL else
+    if v6 then
+      '(off, c) <- rm (get8 c) ;;
+      '(a, c) <- rm (take (nat_of (ceil8 bits)) c) ;;
+      Ok (FPrefix ty bits off (pad_to 16 a), c)
+    else
+      '(a, c) <- rm (take (nat_of (ceil8 bits)) c) ;;
+      Ok (FPrefix ty bits 0 (pad_to 4 a), c)
+  else if (3 <=? ty) && (ty <=? (if v6 then 13 else 12)) then
+    '(ops, c) <- fs_ops (S (length c)) c [] ;; Ok (FOps ty ops, c)
+  else Fail MAL.
+
+(* while c.position() < nlri_len *)
+Fixpoint fs_components (fuel : nat) (v6 : bool) (c : list N) (acc : list fcomp) : res (list fcomp) :=
+  match c with
+  | [] => Ok (rev acc)
+  | _ =>
+    match fuel with
+    | O => Panic FUEL
+    | S f => '(x, c') <- fs_component v6 c ;; fs_components f v6 c' (x :: acc)
+    end
+  end.
+
+(* Flowspec{,Vpn}V{4,6}Nlri::decode: [n] is what remains of the NLRI field *)
+Definition fs_decode (vpn v6 : bool) (c : list N) (n : N) : res (list N * list fcomp * list N) :=
+  if n <? 1 then Fail MAL else
+  '(first, c) <- rm (get8 c) ;;
+  '(nlen, hdr, c) <-
+     (if first <? 240 then Ok (first, 1, c)
+      else '(second, c) <- rm (get8 c) ;; Ok ((first mod 16) * 256 + second, 2, c)) ;;
+  if (n <? nlen + hdr) || (vpn && (nlen <? 8)) then Fail MAL else
+  '(buf, c) <- rm (take (nat_of nlen) c) ;;
+  if vpn then
+    let rd := firstn 8 buf in
+    if Nat.ltb (length rd) 8 then Panic 7 else              (* c.read_u8()? on the 8 RD octets: cannot fail *)
+    if negb (rd_ok rd) then Fail MAL else
+    comps <- fs_components (S (length buf)) v6 (skipn 8 buf) [] ;;
+    Ok (rd, comps, c)
+  else
+    comps <- fs_components (S (length buf)) v6 buf [] ;;
+    Ok ([], comps, c).
+
 (* ---- the unrepaired label arithmetic (vpn.rs / labeled.rs before the fix):
      let label_bits = (labels.encoded_len() * 8) as u8;
      if total_bits < label_bits + VPN_RD_BITS { Err }          (u8 addition) *)
@@ -138,6 +527,24 @@ Section Nlri.
       '(ls, m, a, c) <- labeled_decode 32 4 is_reach c n ;; Ok (NLab4 ls m a, c)
     else if fam =? F_IPV6_MPLS then
       '(ls, m, a, c) <- labeled_decode 128 16 is_reach c n ;; Ok (NLab6 ls m a, c)
+    else if fam =? F_EVPN then
+      '(e, c) <- evpn_decode c ;; Ok (NEvpn e, c)
+    else if fam =? F_RTC then
+      '(e, c) <- rtc_decode c ;; Ok (NRtc e, c)
+    else if (fam =? F_IPV4_SRP) || (fam =? F_IPV6_SRP) then
+      '(e, c) <- srp_decode c ;; Ok (NSrp e, c)
+    else if fam =? F_IPV4_FS then
+      '(rd, comps, c) <- fs_decode false false c n ;; Ok (NFlow 0 rd comps, c)
+    else if fam =? F_IPV6_FS then
+      '(rd, comps, c) <- fs_decode false true c n ;; Ok (NFlow 1 rd comps, c)
+    else if fam =? F_IPV4_FSVPN then
+      '(rd, comps, c) <- fs_decode true false c n ;; Ok (NFlow 2 rd comps, c)
+    else if fam =? F_IPV6_FSVPN then
+      '(rd, comps, c) <- fs_decode true true c n ;; Ok (NFlow 3 rd comps, c)
+    else if fam =? F_LS then
+      '(x, c) <- ls_decode c ;; Ok (NLs x, c)
+    else if (fam =? F_IPV4_MUP) || (fam =? F_IPV6_MUP) then
+      '(e, c) <- mup_decode fam c n ;; Ok (NMup e, c)
     else if is_other_family fam then
       match other_nlri fam is_reach c with
       | Some c' => Ok (NOther, c')
@@ -183,6 +590,28 @@ Definition v_nlri (x : nlri) : val :=
   | NLab6 l m a => VL [VN 3; VNs l; VN m; VNs a]
   | NVpn4 l r m a => VL [VN 4; VNs l; VNs r; VN m; VNs a]
   | NVpn6 l r m a => VL [VN 5; VNs l; VNs r; VN m; VNs a]
+  | NEvpn e => VL [VN 10; VNs e]
+  | NRtc e => VL [VN 11; VNs e]
+  | NSrp e => VL [VN 12; VNs e]
+  | NMup e => VL [VN 14; VNs e]
+  | NLs x =>
+    let v_nd (n : lsnd) := VL [VOpt VN (nd_asn n); VOpt VN (nd_lsid n); VOpt VN (nd_area n); VOpt VNs (nd_igp n); VOpt VNs (nd_bgp n); VOpt VN (nd_confed n)] in
+    let v_tlv (t : lstlv) := match t with
+      | LsLinkId l r => VL [VN 0; VN l; VN r] | LsAddr k a => VL [VN 1; VN k; VNs a] | LsMt ids => VL [VN 2; VNs ids]
+      | LsOspf t => VL [VN 4; VN t] | LsReach p a => VL [VN 5; VN p; VNs a] | LsUnk t v => VL [VN 3; VN t; VNs v] end in
+    match x with
+    | LsUnknown t b => VL [VN 15; VN 0; VN t; VNs b]
+    | LsNode p id n => VL [VN 15; VN 1; VN p; VN id; v_nd n]
+    | LsLink p id l r tl => VL [VN 15; VN 2; VN p; VN id; v_nd l; v_nd r; VList v_tlv tl]
+    | LsPrefix v6 p id n tl => VL [VN 15; VN (if v6 then 4 else 3); VN p; VN id; v_nd n; VList v_tlv tl]
+    | LsSrv6 p id n sids mts => VL [VN 15; VN 6; VN p; VN id; v_nd n; VList VNs sids; VNs mts]
+    end
+  | NFlow k rd comps =>
+    VL [VN 13; VN k; VNs rd;
+        VList (fun x => match x with
+                        | FPrefix t b o a => VL [VN t; VN 0; VN b; VN o; VNs a]
+                        | FOps t ops => VL [VN t; VN 1; VList VPairN ops]
+                        end) comps]
   | NOther => VL [VN 9]
   end.
 
